@@ -92,7 +92,10 @@ def discharge(vc, timeout_ms=None, fallbacks=True, seed=None):
             res['model'] = {'error': str(e)}
         return res
     res['reason'] = s.reason_unknown()
-    if fallbacks and os.path.exists('/usr/bin/z3'):
+    # /usr/bin/z3 4.8.12 is NOT used for program VCs any more: on a VC of C18 (string UFs + quantifiers) it answered `unsat` for a goal that does not follow from the
+    # hypotheses (z3 5.1: unknown; a variant with a fresh constant: timeout) — an unconfirmed `unsat` of that version is not accepted as a proof. It remains available for the
+    # pure string closure lemmas (discharge_fresh), which z3 5.1 confirms as well. Set LIANVC_USE_Z3_4812=1 to re-enable (results are then labelled with the backend).
+    if fallbacks and os.environ.get('LIANVC_USE_Z3_4812') == '1' and os.path.exists('/usr/bin/z3'):
         try:
             text = smt2_of(vc.hyps, vc.goal)
             for prefix, label in (('(set-logic ALL)\n', 'z3-4.8.12(cli, logic ALL)'), ('', 'z3-4.8.12(cli)')):
@@ -103,6 +106,19 @@ def discharge(vc, timeout_ms=None, fallbacks=True, seed=None):
                     return res
         except Exception as e:     # noqa
             res['reason'] += f' / cli: {e!r}'
+    # quantifier-free core: dropping hypotheses is sound for an `unsat` answer, and many path-infeasibility VCs follow from the ground facts alone while the
+    # quantified hypotheses (Exists under an equality, invariants) only make the e-matching/MBQI loop wander
+    if not _has_quantifier(vc.goal):
+        sq = z3.Solver()
+        sq.set('timeout', min(2000, timeout_ms))
+        sq.add(*[q for h in vc.hyps for q in _qf_conjuncts(h)])
+        sq.add(z3.Not(vc.goal))
+        t1 = time.time()
+        rq = sq.check()
+        res['time_s'] += time.time() - t1
+        if rq == z3.unsat:
+            res.update(verdict='unsat', backend='z3-5.1(py) (quantifier-free core of the hypotheses)')
+            return res
     if timeout_ms > first_ms:
         s2 = z3.Solver()
         s2.set('timeout', timeout_ms - first_ms)
